@@ -8,7 +8,7 @@ use sched_common::*;
 
 pub const GATES: &[&str] = &[
     "cmd.begin", "db.bound", "txn.lock.begin", "txn.pinned", "txn.locked", "vm.commit.begin", "vm.committed",
-    "ddl.drop.applied", "cp.pass.begin", "cp.table", "cp.locked", "cp.pass.end",
+    "ddl.drop.applied", "ddl.create.begin", "cp.pass.begin", "cp.table", "cp.locked", "cp.pass.end",
 ];
 
 fn gates() -> Vec<String> {
